@@ -64,7 +64,47 @@ def stored_dict(rng) -> str:
     return "M [ " + "".join(es(k) + " " + (S(rstr(rng)) if rng.random() < 0.6 else H(rstr(rng))) + " " for k in ks) + "]"
 
 
+def pv_node(n) -> str:
+    """a node term (wire.py) as the Python object the renderer sees"""
+    k = n[0]
+    if k == "tag":
+        attrs = "M [ " + "".join(es(a) + " " + ("H " if v[0] == "h" else "S ") + es(v[1]) + " " for a, v in n[3]) + "]"
+        kids = "L [ " + "".join(pv_node(c) + " " for c in n[4]) + "]"
+        return f"O Tag [ name {S(n[1])} attrs {attrs} children O TagList [ data {kids} ] add_ws {'T' if n[2] else 'F'} ]"
+    if k == "text":
+        return S(n[1])
+    if k == "html":
+        return H(n[1])
+    if k == "robj":
+        return f"O ReprObj [ _repr_html_ {S(n[1])} ]"
+    if k == "meta":
+        return f"O MetadataNode [ id I {n[1]} ]"
+    if k == "dep":
+        return f"O HTMLDependency [ name {S(n[1]['name'])} ]"
+    if k in ("tobjL", "tobj1"):
+        return "O TagifiableObj [ tagify N " + (f"_repr_html_ {S(n[1])} " if n[1] is not None else "") + "]"
+    raise ValueError(k)
+
+
+def _tag_line(rng):
+    import gen
+    t = gen.rand_tag(rng, rng.randint(1, 4), leaves=("text", "html", "robj", "meta"))
+    if rng.random() < 0.15:     # an un-expanded tagifiable object somewhere
+        t = (t[0], t[1], t[2], t[3], list(t[4]) + [rng.choice([("tobjL", None, []), ("tobjL", "<r>", []), ("tobj1", None, ("text", "x"))])])
+    return f"[ {pv_node(t)} I {rng.choice([0, 0, 1, 3])} {S(rng.choice([chr(10), '', chr(13) + chr(10), '<!>']))} ]"
+
+
+def _list_line(rng):
+    import gen
+    ks = [gen.rand_node(rng, rng.randint(0, 3), leaves=("text", "html", "robj", "meta")) for _ in range(rng.randint(0, 5))]
+    data = "L [ " + "".join(pv_node(c) + " " for c in ks) + "]"
+    return (f"[ O TagList [ data {data} ] I {rng.choice([0, 1, 2])} {S(rng.choice([chr(10), '', '<!>']))} "
+            f"{rng.choice(['T', 'F'])} {rng.choice(['T', 'T', 'F'])} ]")
+
+
 GENS = {
+    "Tag_get_html_string": _tag_line,
+    "TagList_get_html_string": _list_line,
     "html_escape": lambda rng: f"[ {S(rstr(rng)) if rng.random() < 0.93 else scalar(rng)} {rng.choice(['T', 'F'])} ]",
     "HTML_as_string": lambda rng: f"[ {H(rstr(rng))} ]",
     "HTML_add": lambda rng: f"[ {H(rstr(rng))} {scalar(rng)} ]",
